@@ -32,6 +32,12 @@ func (k msgServer) NonVotingDelegate(ctx context.Context, msg *types.MsgNonVotin
 	if err != nil {
 		return nil, errorsmod.Wrap(err, "invalid validator address")
 	}
+	// Share denoms and store keys are derived from the address string: use the canonical
+	// encoding, bech32 also decodes an all upper-case string to the same validator
+	validator, err := k.stakingKeeper.ValidatorAddressCodec().BytesToString(validatorAddr)
+	if err != nil {
+		return nil, errorsmod.Wrap(err, "invalid validator address")
+	}
 
 	_, err = k.Keeper.ClaimRewards(ctx, sender, validatorAddr)
 	if err != nil {
@@ -39,19 +45,19 @@ func (k msgServer) NonVotingDelegate(ctx context.Context, msg *types.MsgNonVotin
 	}
 
 	// Calculate share before delegate
-	shareAmount, err := k.CalculateShareByAmount(ctx, msg.ValidatorAddress, msg.Amount.Amount)
+	shareAmount, err := k.CalculateShareByAmount(ctx, validator, msg.Amount.Amount)
 	if err != nil {
 		return nil, err
 	}
 
 	// Convert and delegate
-	err = k.ConvertAndDelegate(ctx, sender, msg.ValidatorAddress, msg.Amount.Amount)
+	err = k.ConvertAndDelegate(ctx, sender, validator, msg.Amount.Amount)
 	if err != nil {
 		return nil, err
 	}
 
 	// Mint non transferrable share token
-	shareDenom := types.NonVotingShareTokenDenom(msg.ValidatorAddress)
+	shareDenom := types.NonVotingShareTokenDenom(validator)
 	k.bankKeeper.SetSendEnabled(ctx, shareDenom, false)
 	coins := sdk.NewCoins(sdk.NewCoin(shareDenom, shareAmount))
 
